@@ -267,7 +267,7 @@ def ro_builder(ids, mid, ro_id='RO', lead=2, completed=False):
     return build
 
 
-def msg_builder(kind, ref, mid, new_id=None, ro_id='RO'):
+def msg_builder(kind, ref, mid, new_id=None, ro_id='RO', slot=None):
     """kind: message type; ref: the story ID it refers to (existing or unknown -> fails/warns)."""
     def build():
         kw = {'msg_id': mid, 'ro_id': ro_id}
@@ -290,7 +290,8 @@ def msg_builder(kind, ref, mid, new_id=None, ro_id='RO'):
         if kind == 'EAStoryMove':
             return M.ea_story_move(M.ABSENT, [ref], **kw)
         if kind == 'roStorySend':
-            return M.story_send(ref, body=[T('p', 'sent')], pre=[B.timing_block(dur='6')], **kw)
+            return M.story_send(ref, body=[T('p', 'sent' if slot is None else 'sent by message %d' % slot)],
+                                pre=[B.timing_block(dur='6')], **kw)
         if kind == 'roDelete':
             return M.ro_delete(**kw)
         if kind == 'roReadyToAir':
@@ -339,7 +340,7 @@ def collection_cell(P, A):
             r_ = refs[j % len(refs)]
             # 'n<i>': the story that message i brings in (which may be numbered later: then this message fails)
             ref = x if fails else (A[r_] if isinstance(r_, str) else ids[r_ % N])
-            b = msg_builder(kind, ref, mids[j], new_id=A.get('n%d' % j))
+            b = msg_builder(kind, ref, mids[j], new_id=A.get('n%d' % j), slot=j if P.get('refs') else None)
             if ncs:
                 b = _with_ncs(b, ncs[j])
             name = None
@@ -453,6 +454,8 @@ def collection_cell(P, A):
             srt = sorted(objs)
             if [o.message_id for o in srt] != sorted(int(m) for m in [rc_mid] + mids):
                 sig = 'sorted-MosFile-objects-not-numeric'
+    if P.get('judge') == 'runs-to-end' and sig and not sig.startswith(('merge-raised-', 'construction-raised-', 'second-merge-raised-')):
+        sig = None          # the C12 reading of these cells: a non-strict merge runs to the end (the rest is C09's)
     if B.Ctx.replay:
         B.note(sig=sig)
     return sig is None
@@ -706,6 +709,16 @@ SOURCE_DOCS = [
     # text a normalisation would change (decomposed accents, compatibility characters, non-BMP, no-break space)
     ('not-nfc', 'utf-8', '<mos><messageID>10</messageID><roStoryAppend><roID>R</roID><story><storyID>e\u0301 \u212b \u2126</storyID>'
                          '<storySlug>\ufb01n \U0001f600\u00a0x</storySlug><p>a\u030a</p></story></roStoryAppend></mos>'),
+    # comments, processing instructions and CDATA (between elements, inside character data, around the root): whatever
+    # the parser does with them, it does the same for every source
+    ('comments-pis-cdata', 'utf-8', '<?xml version="1.0"?>\n<!-- sent by ncs -->\n<mos><messageID>13</messageID><roStoryAppend><roID>R</roID>'
+                                    '<!-- one story --><story><storyID>S<!--x-->1</storyID><?ncs cue?><storySlug><![CDATA[a <b> & c]]></storySlug>'
+                                    '<mosExternalMetadata><mosSchema>s</mosSchema><mosPayload><!-- vendor note --><k>v</k><?gfx go?></mosPayload>'
+                                    '</mosExternalMetadata><p>one<!-- aside --> two</p></story></roStoryAppend></mos>\n<!-- end -->'),
+    # XML namespaces in vendor payloads (prefixed and default)
+    ('namespaces', 'utf-8', '<mos xmlns:dc="http://purl.org/dc/elements/1.1/"><messageID>14</messageID><roStoryAppend><roID>R</roID><story>'
+                            '<storyID>S1</storyID><mosExternalMetadata><mosSchema>s</mosSchema><mosPayload><dc:title dc:lang="en">t</dc:title>'
+                            '<title xmlns="urn:x-vendor">u</title><title>v</title></mosPayload></mosExternalMetadata></story></roStoryAppend></mos>'),
     # well-formed MOS messages the library does not support: the same refusal from every source
     ('heartbeat', 'utf-8', '<mos><mosID>m</mosID><ncsID>n</ncsID><messageID>11</messageID><heartbeat><time>2020-01-01T00:00:00</time>'
                            '</heartbeat></mos>'),
@@ -993,6 +1006,11 @@ SCENARIOS = {
     # two messages that share a message ID are merged in the order listed, whatever their file names
     'same-id-listed-against-name-order': ['roCreate#m', 'roStoryAppend@20#zz', 'roStoryAppend@20#aa', 'roDelete@30#n'],
     'listed-against-name-order': ['roStorySend@20#b', 'roDelete@30#a', 'roCreate@5#c'],
+    # messages the library applies with a warning only (a story that is not there is deleted; an item of an unknown
+    # story): what the library does with them in strict / non-strict mode is what the command does
+    'warning-only': ['roCreate', 'roStoryDelete!', 'roStorySend', 'roDelete'],
+    'warning-only-incomplete': ['roCreate', 'roStoryDelete!', 'roStoryDelete!'],
+    'warning-then-failing': ['roCreate', 'roStoryDelete!', 'roStoryMove!', 'roDelete'],
 }
 
 
